@@ -159,6 +159,29 @@ def judge_prod(rec, site, x, y, h, l, scale=True, fix_overflow=False, cls=None, 
             lim = DOC_NOSCALE_LIMIT[f.bits]
             dom &= (ax <= lim) & (ay <= lim)
     rec.count("evaluations", x.size)
+    if fix_overflow:
+        # the region the overflow guard exists for: x*y finite, the Dekker product may overflow internally.  Documented: "fallback to xyh = x * y and
+        # xyl = 0".  Whether or not the guard fires for a given pair, the result must be the exact pair or that fallback - never an infinity or NaN.
+        with numpy.errstate(all="ignore"):
+            prod = (x * y).astype(dt)
+            reg = fin(x, y) & ~dom & numpy.isfinite(prod) & (logmag + numpy.log2(infl) >= numpy.log2(big) - 1e-9)
+            if not scale:
+                reg &= (ax <= DOC_NOSCALE_LIMIT[f.bits]) & (ay <= DOC_NOSCALE_LIMIT[f.bits])
+        if reg.any():
+            xr, yr, hr, lr, pr = x[reg], y[reg], h[reg], l[reg], prod[reg]
+            okf = fin(hr, lr)
+            fallback = okf & (hr == pr) & (lr == 0)
+            hz_, lz_ = numpy.where(okf, hr, dt(0)), numpy.where(okf, lr, dt(0))
+            if f.bits == 16:
+                exact_pair = okf & (hz_.astype(numpy.float64) + lz_.astype(numpy.float64) == xr.astype(numpy.float64) * yr.astype(numpy.float64)) & (hr == pr)
+            else:
+                exr = exact.to_units(xr) * exact.to_units(yr)
+                exact_pair = okf & ((exact.to_units(hz_) + exact.to_units(lz_)) * (1 << (-k)) == exr).astype(bool) & (hr == pr)
+            badr = ~(fallback | exact_pair)
+            rec.count("judged:dekker-overflow-guard-region", int(reg.sum()))
+            if badr.any():
+                xb, yb, hb, lb, rb = first_bad(badr, xr, yr, hr, lr, pr)
+                rec.violation(site + "-overflow-guard", dict(dtype=numpy.dtype(dt).name, x=xb, y=yb, h=hb, l=lb, rn=rb, scale=scale, fix_overflow=True, count=int(badr.sum())), n=int(badr.sum()))
     if not dom.any():
         return
     xs, ys, hs, ls = x[dom], y[dom], h[dom], l[dom]
@@ -391,12 +414,83 @@ def task_pairs(params, rec):
     contracts.detach_all()
 
 
-TASKS = {"f16_pairs": task_f16_pairs, "f16_split": task_f16_split, "pairs": task_pairs}
+def task_constants(params, rec):
+    """every copy of the splitter-constant helper returns 2^ceil(p/2) + 1 for every dtype, on the eager route and (the `largest`-switching helpers that
+    only work when traced) through a traced function emitted for NumPy; the traced algorithms.py copy of the splitter is exact with its own constant"""
+    import warnings
+    import functional_algorithms as fa
+    from functional_algorithms import floating_point_algorithms as fpa, algorithms as alg, utils, rewrite as fa_rewrite
+
+    for dt in (numpy.float16, numpy.float32, numpy.float64):
+        f = exact.fmt(dt)
+        want = float(2 ** ((f.p + 1) // 2) + 1)
+        got = {}
+        try:
+            got["utils.get_veltkamp_splitter_constant"] = float(utils.get_veltkamp_splitter_constant(dt(1)))
+        except Exception as e:
+            got["utils.get_veltkamp_splitter_constant"] = f"{type(e).__name__}: {e}"
+        for modname, mod in (("floating_point_algorithms", fpa), ("algorithms", alg)):
+            def make_route(m):
+                def route(ctx, x):
+                    return m.get_veltkamp_splitter_constant(ctx, ctx.constant("largest", x)) + x * ctx.constant(0, x)
+
+                return route
+
+            route = make_route(mod)
+
+            try:
+                with warnings.catch_warnings():
+                    warnings.simplefilter("ignore")
+                    ctx = fa.Context(paths=[fa.algorithms])
+                    g = ctx.trace(route, dt).rewrite(fa.targets.numpy, fa_rewrite)
+                    fn = fa.targets.numpy.as_function(g, debug=0)
+                    with numpy.errstate(all="ignore"):
+                        got[modname + ".get_veltkamp_splitter_constant (traced)"] = float(fn(dt(1)))
+            except Exception as e:
+                got[modname + ".get_veltkamp_splitter_constant (traced)"] = f"{type(e).__name__}: {e}"[:200]
+        try:
+            got["floating_point_algorithms.get_veltkamp_splitter_constant (eager)"] = float(fpa.get_veltkamp_splitter_constant(utils.NumpyContext(dt), dt(numpy.finfo(dt).max)))
+        except Exception as e:
+            got["floating_point_algorithms.get_veltkamp_splitter_constant (eager)"] = f"{type(e).__name__}: {e}"[:200]
+        for name, v in got.items():
+            rec.count("evaluations")
+            rec.count("constants:checked")
+            if v != want:
+                rec.violation("splitter-constant", dict(dtype=dt.__name__, helper=name, got=v, expected=want))
+        # the algorithms.py splitter with its own constant: halves of the documented widths that sum to x, on every float16 / sampled values
+        try:
+            def split_route(ctx, x):
+                C = alg.get_veltkamp_splitter_constant(ctx, ctx.constant("largest", x))
+                xh, xl = alg.split_veltkamp(ctx, C, x)
+                return ctx.select(x == x, xh, xl) if False else xh
+
+            with warnings.catch_warnings():
+                warnings.simplefilter("ignore")
+                ctx = fa.Context(paths=[fa.algorithms])
+                g = ctx.trace(split_route, dt).rewrite(fa.targets.numpy, fa_rewrite)
+                fn = fa.targets.numpy.as_function(g, debug=0)
+            xs = exact.all_values(numpy.float16).astype(dt) if f.bits == 16 else gen.hostile_values(gen.rng_for(params.get("seed", 0), 101, f.bits), dt, 4000)
+            xs = xs[numpy.isfinite(xs) & (numpy.abs(xs.astype(numpy.float64)) < float(numpy.finfo(dt).max) / (want + 1))]
+            with numpy.errstate(all="ignore"):
+                xh = numpy.array([fn(v) for v in xs[:: max(1, xs.size // 6000)]], dtype=dt)
+            xv = xs[:: max(1, xs.size // 6000)]
+            nb = exact.nbits_units(exact.to_units(xh)) if hasattr(exact, "nbits_units") else None
+            rec.count("constants:checked", int(xv.size))
+            if nb is not None:
+                bad = numpy.asarray(nb) > (f.p - (f.p + 1) // 2)
+                if bad.any():
+                    i = int(numpy.flatnonzero(bad)[0])
+                    rec.violation("algorithms.split_veltkamp-high-width", dict(dtype=dt.__name__, x=xv[i], xh=xh[i], bits=int(numpy.asarray(nb)[i]), allowed=f.p - (f.p + 1) // 2), n=int(bad.sum()))
+        except Exception as e:
+            rec.violation("algorithms.split_veltkamp-exception", dict(dtype=dt.__name__, exc=f"{type(e).__name__}: {e}"[:300]))
+
+
+TASKS = {"f16_pairs": task_f16_pairs, "f16_split": task_f16_split, "pairs": task_pairs, "constants": task_constants}
 SHARD_TIMEOUT = {"quick": 1500, "thorough": 7200}
 
 
 def plan(tier, seed):
-    t = [("f16_split", {})]
+    t = [("f16_split", {}), ("constants", dict(seed=seed))]
     if tier == "quick":
         step = 124 * 16
         for s in range(16):
